@@ -47,10 +47,15 @@ raw slots of the real table files):
       `c04b phys put` + `c04b phys digest`: one real transaction `Set(present key, value)` driven to
       the files, the model's tables compared with the real ones table by table (fill mark, free-list
       head, FNV of all slot prefixes), then `inv` and `get` on the model's column;
-  `physWriteNode none`, `physWriteValue none`, `physFreeNode`, `physSetHeader`
+  `physPath`, `writeBack`, `finishRoot`, `physInsertAbsent`, `physRemoveLeafKey`, `physInsertSplitLeaf`
+  (with them `physWriteValue none`, `physWriteNode none`, `physSetHeader`, `physRemove` of a value)
+      `c04b phys ins` / `del` / `split` + `c04b phys digest`: three more real transactions per case
+      (absent key without split, leaf key removed without rebalance, absent key with one leaf split),
+      model tables against the real files after each, then `get` and `inv`;
+  `physFreeNode`
       one-line compositions of the tied `physWriteNew` / `physRemove` / `physWriteExisting`
-      (`R8_plan_functions`); not replayed as such (they occur in splits, merges and root changes,
-      whose write-back order is not modelled).
+      a one-line composition of the tied `physRemove` (`R8_plan_functions`); not replayed as such (it
+      occurs in merges and root removal, whose write-back is not modelled).
 
 Modelling decisions
 * `PCol.tables : Nat → VT`, tier `i` is `tables i`; `tables.len() = SIZE_TIERS` (256): an
@@ -459,6 +464,58 @@ def physRemoveLeafKey (decomp : Bytes → Option Bytes) (cp : Cmp) (c : PCol) (k
                     | .error e => .error e
                     | .ok c3 => .ok (some c3)
 
+/-- `write_plan` of the transaction `Set(k, v)`, `k` absent, the LEAF IS FULL and its parent has
+room (tree of depth >= 1): `Node::insert` writes the value (`create_separator`), splits the leaf
+(`split`: with the new separator inserted, the first `ORDER/2` separators stay, the next one moves
+up, the rest form the right node), writes the RIGHT node as a new entry (`write_split_child`), returns
+to the parent, whose `write_child` writes the LEFT node at the leaf's address (or a new one if it
+changes tier), then `insert_node` puts the separator and the right child into the parent, which is
+written back like any changed node (`writeBack`), the header last.  `none`: not of that shape. -/
+def physInsertSplitLeaf (decomp : Bytes → Option Bytes) (cp : Cmp) (c : PCol) (k : Key) (v : Bytes) :
+    Except PErr (Option PCol) :=
+  match physHeader decomp c with
+  | .error e => .error e
+  | .ok (root, depth) =>
+    if root = NULL_ADDRESS then .ok none
+    else
+      match fetchNode decomp c root with
+      | .error e => .error e
+      | .ok rn =>
+        match physPath decomp c depth root rn k with
+        | .error e => .error e
+        | .ok none => .ok none
+        | .ok (some (path, found)) =>
+          match path.reverse with
+          | (la, ln, i) :: (pa, pn, pi) :: up =>
+            if found = true ∨ ln.seps.length ≠ C04.ORDER ∨ C04.ORDER ≤ pn.seps.length ∨
+                path.length ≠ depth + 1 then .ok none
+            else
+              match physWriteValue cp c none v with
+              | .error e => .error e
+              | .ok (_, none) => .ok none
+              | .ok (c1, some va) =>
+                let s' := insertAtL ln.seps i (k, va)
+                match s'[C04.MIDDLE]? with
+                | none => .ok none
+                | some sep =>
+                  match physWriteNode c1 ⟨s'.drop (C04.MIDDLE + 1), []⟩ none with
+                  | .error e => .error e
+                  | .ok (_, none) => .ok none
+                  | .ok (c2, some ra) =>
+                    match physWriteNode c2 ⟨s'.take C04.MIDDLE, []⟩ (some la) with
+                    | .error e => .error e
+                    | .ok (c3, lr) =>
+                      let pn' : C04.RawNode :=
+                        { seps := insertAtL pn.seps pi sep,
+                          children := insertAtL (pn.children.set pi (lr.getD la)) (pi + 1) ra }
+                      match writeBack c3 pa pn' up with
+                      | .error e => .error e
+                      | .ok (c4, r) =>
+                        match finishRoot cp c4 depth r with
+                        | .error e => .error e
+                        | .ok c5 => .ok (some c5)
+          | _ => .ok none
+
 /-! ## abstraction -/
 
 /-- `some` of all elements, or `none` -/
@@ -565,6 +622,10 @@ def jointCheck (decomp : Bytes → Option Bytes) (c : PCol) : Bool :=
                   -> `ok` | `unsupported` | `err:<Kind>`: `physInsertAbsent` (the whole `write_plan` of
                      `Set(key, value)`, key ABSENT, leaf not full: value entry, leaf, the parents whose
                      child moved, header if the root moved)
+  c04b phys split <keyhex> <valuehex> <threshold> <compressed hex | none>
+                  -> `ok` | `unsupported` | `err:<Kind>`: `physInsertSplitLeaf` (`Set(key, value)`, key absent,
+                     the leaf is FULL and its parent has room: value, right node (new), left node, parent,
+                     ancestors whose child moved, header)
   c04b phys del <keyhex> <threshold>
                   -> `ok` | `unsupported` | `err:<Kind>`: `physRemoveLeafKey` (the whole `write_plan` of
                      `Dereference(key)`, key in a leaf that keeps ORDER/2 separators)
@@ -690,6 +751,15 @@ def step (s : State) (args : List String) : State × String :=
     | some k, some v, some thr, some cv =>
       let cp : Cmp := ⟨fun x => cv.getD x, thr⟩
       match physInsertAbsent noDecomp cp s.col k v with
+      | .ok (some c') => ({ s with cur := some c' }, "ok")
+      | .ok none => (s, "unsupported")
+      | .error e => (s, showErr e)
+    | _, _, _, _ => (s, "bad-op")
+  | ["split", k, v, thr, cv] =>
+    match C04.unhex k, ValueTable.unhex v, thr.toNat?, (if cv = "none" then some none else (ValueTable.unhex cv).map some) with
+    | some k, some v, some thr, some cv =>
+      let cp : Cmp := ⟨fun x => cv.getD x, thr⟩
+      match physInsertSplitLeaf noDecomp cp s.col k v with
       | .ok (some c') => ({ s with cur := some c' }, "ok")
       | .ok none => (s, "unsupported")
       | .error e => (s, showErr e)
